@@ -117,7 +117,7 @@ Section Skeleton.
       | IfC c a b => if rho c then go a else go b
       | Call g => match fuel with
                   | O => Bad
-                  | S n => joinl (map (fun rho' => check n rho' (env g)) (all_vals (conds_of (env g))))
+                  | S n => joinl (map (fun rho' => check n rho' (env g)) (all_vals (nodup string_dec (conds_of (env g)))))
                   end
       end.
 
@@ -196,10 +196,11 @@ Section Skeleton.
     - assert (E : check fuel rho (IfC c a b) = if rho c then check fuel rho a else check fuel rho b) by (destruct fuel; reflexivity).
       rewrite E, Hc. apply IH.
     - destruct fuel; [exact I|]. cbn [check].
-      destruct (all_vals_complete (conds_of (env g)) rho') as [r0 [Hin Hag]].
+      destruct (all_vals_complete (nodup string_dec (conds_of (env g))) rho') as [r0 [Hin Hag]].
+      assert (Hag' : forall c, In c (conds_of (env g)) -> r0 c = rho' c) by (intros c Hc; apply Hag; now apply nodup_In).
       apply (holds_joinl (check fuel r0 (env g))).
       + apply in_map_iff. exists r0. split; [reflexivity|exact Hin].
-      + rewrite (check_ext fuel (env g) r0 rho' Hag). apply IH.
+      + rewrite (check_ext fuel (env g) r0 rho' Hag'). apply IH.
   Qed.
 
   (** the analysis is sound: not [Bad] implies every admitted trace is safe *)
